@@ -5,6 +5,7 @@ from .. import astu, callgraph, project
 from ..framework import Report, where
 from ..project import AnalysisBroken
 from ..rules import cppflow, statics, symalg
+from ..rules.scopes import parent_map, Locals
 from ..rules.symalg import Poly
 
 MDL = 'bxdecay0::momentum_direction_lock_event_op'
@@ -24,49 +25,6 @@ LABELS = {'g': 'GAMMA', 'gamma': 'GAMMA', 'e+': 'POSITRON', 'positron': 'POSITRO
           'electron': 'ELECTRON', 'n': 'NEUTRON', 'neutron': 'NEUTRON', 'p': 'PROTON', 'proton': 'PROTON',
           'a': 'ALPHA', 'alpha': 'ALPHA', '*': 'INVALID_PARTICLE', 'all': 'INVALID_PARTICLE'}
 ALLOWED_MUTATORS = {'bxdecay0::particle::set_momentum', 'bxdecay0::event::grab_particles'}
-
-
-def parent_map(root):
-    pm = {}
-    st = [root]
-    while st:
-        x = st.pop()
-        for c in astu.children(x):
-            pm[id(c)] = x
-            st.append(c)
-        # ForRange 'var' is a plain dict without 'k'
-        if x.get('k') == 'ForRange' and isinstance(x.get('var'), dict) and 'init' in x['var']:
-            pm[id(x['var']['init'])] = x
-            st.append(x['var']['init'])
-        if x.get('k') == 'Decl':
-            for v in x['vars']:
-                if 'init' in v:
-                    pm[id(v['init'])] = x
-                    st.append(v['init'])
-    return pm
-
-
-class Locals:
-    def __init__(self, fn):
-        self.fn = fn
-        self.decl = {}
-        self.assigns = {}
-        for n in astu.walk(fn['body']):
-            if n['k'] == 'Decl':
-                for v in n['vars']:
-                    self.decl[v['id']] = v
-            elif n['k'] == 'ForRange' and isinstance(n.get('var'), dict):
-                self.decl[n['var']['id']] = dict(n['var'], forrange=n)
-            elif n['k'] == 'Bin' and n['op'] in statics.ASSIGN_OPS:
-                r = statics.root_ref(n['a'])
-                if r is not None:
-                    self.assigns.setdefault(r['id'], []).append(n)
-        for n in astu.walk(fn['body']):
-            if n['k'] == 'Decl':
-                for v in n['vars']:
-                    if 'init' in v:
-                        for x in astu.walk(v['init']):
-                            pass
 
 
 def fields_in(e, base_name):
